@@ -64,10 +64,10 @@ func init() {
 		Property: "C02",
 		Phase:    "entropy-error enumeration on hedged signing and key generation",
 		Variants: []string{"plain"},
-		Rule: "per run: one key / message / option variant; the entropy stream fails at EVERY byte offset 0..31, each with (0, err), (n>0, err) and clean EOF delivery and three chunk sizes (enumerated, 288 cases per run) for PrivateKey.Sign with AddedRandomness and for GenerateKey; every case must return (nil, error) - never a signature or key; offsets 32.. must succeed; non-trivial = every run; distinct = distinct event-log digests",
-		Real: []string{"ed25519.PrivateKey.Sign (AddedRandomness)", "ed25519.GenerateKey"},
-		Stub: []string{"entropy reader failing at an enumerated offset"},
-		Run:  runC02F,
+		Rule:     "per run: one key / message / option variant; the entropy stream fails at EVERY byte offset 0..31, each with (0, err), (n>0, err) and clean EOF delivery and three chunk sizes (enumerated, 288 cases per run) for PrivateKey.Sign with AddedRandomness and for GenerateKey; every case must return (nil, error) - never a signature or key; offsets 32.. must succeed; non-trivial = every run; distinct = distinct event-log digests",
+		Real:     []string{"ed25519.PrivateKey.Sign (AddedRandomness)", "ed25519.GenerateKey"},
+		Stub:     []string{"entropy reader failing at an enumerated offset"},
+		Run:      runC02F,
 	})
 }
 
